@@ -328,14 +328,14 @@ impl Track {
             None => return def,
             Some(pia) => pia.clone()
         };
-        let mut area_time = 0;
+        let mut area_time: isize = 0;
         for i in 0..ia.len() / 3 {
             let low = ia[i*3+0];
             let high = ia[i*3+1];
             let len = ia[i*3+2];
-            let area_time_to = area_time + len;
+            let area_time_to = area_time.wrapping_add(len);
             if area_time <= cur_time && cur_time < area_time_to {
-                let v = (high - low) as f32 * ((cur_time - area_time) as f32 / len as f32) + low as f32;
+                let v = high.wrapping_sub(low) as f32 * (cur_time.wrapping_sub(area_time) as f32 / len as f32) + low as f32;
                 result = v as isize;
             }
             area_time = area_time_to;
@@ -470,11 +470,11 @@ impl Track {
                 if (j % freq) == 0 {
                     let v = high.wrapping_sub(low) as f32 * (j as f32 / len as f32) + low as f32;
                     let v = value_range(0, v as isize, 127);
-                    let e = Event::cc(seg_start + j, self.channel, cc_no, v);
+                    let e = Event::cc(seg_start.wrapping_add(j), self.channel, cc_no, v);
                     self.events.push(e);
                 }
             }
-            if len > 0 { seg_start += len; }
+            if len > 0 { seg_start = seg_start.wrapping_add(len); }
         }
     }
     pub fn write_pb_on_time(&mut self, is_big: isize, ia: Vec<isize>, timebase: isize) {
@@ -496,11 +496,11 @@ impl Track {
                 if (j % freq) == 0 {
                     let v = high.wrapping_sub(low) as f32 * (j as f32 / len as f32) + low as f32;
                     let v = value_range(0, v as isize, 0x7f7f);
-                    let e = Event::pitch_bend(seg_start + j, self.channel, v);
+                    let e = Event::pitch_bend(seg_start.wrapping_add(j), self.channel, v);
                     self.events.push(e);
                 }
             }
-            if len > 0 { seg_start += len; }
+            if len > 0 { seg_start = seg_start.wrapping_add(len); }
         }
     }
     pub fn remove_cc_on(&mut self, no: isize) {
